@@ -329,6 +329,16 @@ fn catalogue(thorough: bool) -> Vec<Prog> {
             v.push(prog(format!("single2 vf={:#x} {}", fmt, flag_name(f)), Kind::Single, T_KERN, vec![lk(f, vec![single2(fmt)])]));
         }
     }
+    // a feature's lookup index list is a set: lookups are applied in lookup-list order, each once, however the list is
+    // ordered and however often it names an index (adjacent or not)
+    for fmt in [0x4u16, 0x5, 0xF] {
+        for (ln, list) in [("[0,1,0]", vec![0u16, 1, 0]), ("[1,0]", vec![1, 0]), ("[0,0,1]", vec![0, 0, 1]), ("[1,0,1,0]", vec![1, 0, 1, 0]), ("[1,1]", vec![1, 1])] {
+            let lookups = vec![lk((0, 0), vec![single1(fmt, 0)]), lk((0, 0), vec![Subtable::Pair1 { cov: vec![A, B], fmt1: fmt, fmt2: fmt ^ 0x1, sets: vec![vec![(B, val(11), val(12))], vec![(A, val(13), val(14))]] }])];
+            let mut p = prog(format!("single1+pair1 vf={:#x} feature lookup list {}", fmt, ln), Kind::Single, T_KERN, lookups);
+            p.gpos.features = vec![(T_KERN, list)];
+            v.push(p);
+        }
+    }
     // two subtables: the first one that covers the glyph is used
     for fmt in [0x5u16, 0xF, 0x3] {
         v.push(prog(
